@@ -39,6 +39,11 @@ def _comp_parts(v):
     if isinstance(v, ast.Call) and isinstance(v.func, ast.Attribute) and v.func.attr == "join" and _is_empty_sep(v.func.value) and len(v.args) == 1 and not v.keywords \
             and isinstance(v.args[0], (ast.ListComp, ast.GeneratorExp)):
         return ("join", v.args[0].elt, v.args[0].generators, v.func.value)
+    if isinstance(v, ast.Call) and isinstance(v.func, ast.Attribute) and v.func.attr == "join" and _is_empty_bytes(v.func.value) and len(v.args) == 1 and not v.keywords \
+            and isinstance(v.args[0], (ast.Name, ast.Attribute)) and not any(isinstance(x, ast.Call) for x in ast.walk(v.args[0])):
+        # b"".join(xs) over a plain sequence: every element is appended as it is
+        g = ast.comprehension(target=ast.Name(id="_e", ctx=ast.Store()), iter=v.args[0], ifs=[], is_async=0)
+        return ("join", ast.Name(id="_e", ctx=ast.Load()), [g], v.func.value)
     if isinstance(v, ast.Call) and isinstance(v.func, ast.Name) and v.func.id == "sum" and len(v.args) == 1 and not v.keywords and isinstance(v.args[0], (ast.ListComp, ast.GeneratorExp)):
         return ("sum", v.args[0].elt, v.args[0].generators, None)
     return None
@@ -198,20 +203,31 @@ class Desugar(ast.NodeTransformer):
                     return self._block([ast.copy_location(ast.If(test=test, body=[a], orelse=[]), s), b])
                 return self._block([ast.copy_location(ast.If(test=test, body=[a], orelse=[b]), s)])
         # a loop over a short literal sequence of call-free expressions is unrolled
-        if isinstance(s, ast.For) and not s.orelse and isinstance(s.iter, (ast.Tuple, ast.List)) and 1 <= len(s.iter.elts) <= 8 and isinstance(s.target, ast.Name) \
-                and not any(isinstance(x, (ast.Break, ast.Continue, ast.Return, ast.Yield, ast.YieldFrom)) for b in s.body for x in ast.walk(b)) \
+        if isinstance(s, ast.For) and not s.orelse and isinstance(s.iter, (ast.Tuple, ast.List)) and 1 <= len(s.iter.elts) <= 8 \
+                and not any(isinstance(x, (ast.Break, ast.Continue, ast.Yield, ast.YieldFrom)) for b in s.body for x in ast.walk(b)) \
                 and not any(isinstance(e, ast.Starred) or any(isinstance(x, (ast.Call, ast.Await, ast.NamedExpr)) for x in ast.walk(e)) for e in s.iter.elts):
-            v = s.target.id
-            stored = {x.id for b in s.body for x in ast.walk(b) if isinstance(x, ast.Name) and isinstance(x.ctx, (ast.Store, ast.Del))}
-            elt_names = {x.id for e in s.iter.elts for x in ast.walk(e) if isinstance(x, ast.Name)}
-            used_after = self.outside.get(v, 0) > sum(1 for b in [s] for x in ast.walk(b) if isinstance(x, ast.Name) and x.id == v)
-            if v not in stored and not (stored & elt_names) and not used_after:
-                import copy
-                out = []
-                for e in s.iter.elts:
-                    for b in s.body:
-                        out.append(_SubstName(v, e).visit(copy.deepcopy(b)))
-                return self._block(out)
+            # plain name target, or a tuple target over literal tuples of the same arity
+            if isinstance(s.target, ast.Name):
+                names, rows = [s.target.id], [[e] for e in s.iter.elts]
+            elif isinstance(s.target, (ast.Tuple, ast.List)) and all(isinstance(t, ast.Name) for t in s.target.elts) \
+                    and all(isinstance(e, (ast.Tuple, ast.List)) and len(e.elts) == len(s.target.elts) for e in s.iter.elts):
+                names, rows = [t.id for t in s.target.elts], [list(e.elts) for e in s.iter.elts]
+            else:
+                names, rows = None, None
+            if names:
+                stored = {x.id for b in s.body for x in ast.walk(b) if isinstance(x, ast.Name) and isinstance(x.ctx, (ast.Store, ast.Del))}
+                elt_names = {x.id for e in s.iter.elts for x in ast.walk(e) if isinstance(x, ast.Name)}
+                used_after = any(self.outside.get(v, 0) > sum(1 for x in ast.walk(s) if isinstance(x, ast.Name) and x.id == v) for v in names)
+                if not (set(names) & stored) and not (stored & elt_names) and not used_after:
+                    import copy
+                    out = []
+                    for row in rows:
+                        for b in s.body:
+                            b2 = copy.deepcopy(b)
+                            for v, e in zip(names, row):
+                                b2 = _SubstName(v, e).visit(b2)
+                            out.append(b2)
+                    return self._block(out)
         # `xs.extend(E for v in it)` -> `for v in it: xs.append(E)`
         if isinstance(s, ast.Expr) and isinstance(s.value, ast.Call) and isinstance(s.value.func, ast.Attribute) and s.value.func.attr == "extend" \
                 and isinstance(s.value.func.value, ast.Name) and len(s.value.args) == 1 and not s.value.keywords \
